@@ -44,7 +44,7 @@ def parseAll : List SignedBlockMsg → Except Reject (List BlockMsg)
 
 /-! ### Declared symbols (builder.go `checkDeclaredSymbols`)
 
-Every string index of a block must be declared by the time the block is read: by the
+Every string index and every variable number of a block must be declared by the time the block is read: by the
 default table, by an earlier block, or by the block itself. `Extend` skips strings that
 are already known, exactly as `SymbolTable.Insert` does. -/
 
@@ -55,6 +55,7 @@ def symDeclared (t : SymTable) (i : Nat) : Bool := (symStr t i).isSome
 
 def atomDeclared (t : SymTable) : IAtom → Bool
   | .string i => symDeclared t i
+  | .variable i => symDeclared t i   -- variable names live in the same table
   | _ => true
 
 def termDeclared (t : SymTable) : ITerm → Bool
